@@ -1,5 +1,6 @@
 import MaestroVerif.Lemmas.ExecDemo
 import MaestroVerif.Lemmas.ExecLive
+import MaestroVerif.Lemmas.ExecFair
 import MaestroVerif.Gen.ExecTables
 
 /-!
@@ -177,6 +178,52 @@ theorem C05_terminates {cfg : Cfg} (wf : WFCfg' cfg) (ha : Dag.Acyclic cfg.dag) 
   have := unresolved_le_n cfg g
   have : idle g ≤ 1 := by unfold idle; split <;> omega
   omega
+
+/-- the restart budget of the whole study -/
+def totalBudget (cfg : Cfg) : Nat :=
+  ((List.range (cfg.n + 1)).map (fun i => if cfg.hasRestart i then cfg.rlimit i else 0)).sum
+
+theorem remaining_le_total (cfg : Cfg) (g : G) : remaining cfg g ≤ totalBudget cfg := by
+  unfold remaining totalBudget
+  apply sum_map_le
+  intro i _
+  unfold rem1
+  split <;> omega
+
+/-- **Termination with time-outs** (`Lemmas/ExecFair.lean`): when every step that has a restart
+command has a finite restart limit (`-r` other than 0), every run of polls in which each tracked
+job is answered - with an answer that ends the job for good (FINISHED, FAILED, UNKNOWN,
+CANCELLED) *or with TIMEDOUT* - reaches a verdict other than RUNNING within
+`2 (n + 1 + total restart budget) + 1` polls, from any reachable state: a time-out either
+resolves the step (no restart command, budget used up, cancel requested, restart submission
+refused) or spends one unit of a budget that is never refunded. -/
+theorem C05_terminates_with_timeouts {cfg : Cfg} (wf : WFCfg' cfg) (ha : Dag.Acyclic cfg.dag)
+    (fb : FiniteBudget cfg) {g : G} (hr : Reachable cfg g) (ps : List PollIn)
+    (hrun : FairRun cfg g ps) (hlen : 2 * (cfg.n + 1 + totalBudget cfg) + 1 < ps.length) :
+    ∃ k, k < ps.length ∧ verdict cfg (runPolls cfg g (ps.take (k + 1))) ≠ .RUNNING := by
+  apply fair_terminates wf ha fb (2 * (cfg.n + 1 + totalBudget cfg) + 1) g hr _ ps hrun hlen
+  have := unresolved_le_n cfg g
+  have := remaining_le_total cfg g
+  have := idle_le g
+  unfold fairMeasure
+  omega
+
+/-- every fair poll makes progress on the measure "unresolved steps + unspent restart budget" -/
+theorem C05_fair_progress {cfg : Cfg} (wf : WFCfg' cfg) (ha : Dag.Acyclic cfg.dag)
+    (fb : FiniteBudget cfg) {g : G} (hr : Reachable cfg g) {p : PollIn} (hf : Fair g p) :
+    verdict cfg (poll cfg g p).1 ≠ .RUNNING ∨
+    fairMeasure cfg (poll cfg g p).1 < fairMeasure cfg g :=
+  fair_progress wf ha fb hr hf
+
+/-- the demo configuration has a finite budget (step 2: limit 1), and in its history the
+time-out of step 2 spent it: the restart counter went from 0 to 1 -/
+example : FiniteBudget demoCfg ∧ totalBudget demoCfg = 1 ∧
+    (run demoCfg (demoOps.take 2)).restarts 2 = 0 ∧ (run demoCfg (demoOps.take 3)).restarts 2 = 1 := by
+  refine ⟨?_, by decide +kernel, by decide +kernel, by decide +kernel⟩
+  intro i hi
+  have : i = 2 := by simpa [demoCfg] using hi
+  subst this
+  decide
 
 /-- the premises are satisfiable: the demo configuration is acyclic, its history
 is reachable, and a decisive continuation ends it -/
